@@ -37,6 +37,10 @@ namespace Spectra {
 template <typename OpType, typename BOpType>
 class GenEigsBase
 {
+#ifdef SPECTRA_VERIF
+    friend struct ::SpectraVerifAccess;
+#endif
+
 private:
     using Scalar = typename OpType::Scalar;
     using Index = Eigen::Index;
